@@ -138,8 +138,32 @@ theorem pyInt10_rejects_hex (x : Nat) (hx : x = 120 ∨ x = 88) (cs : Str) : pyI
 /-! ### the printing handlers -/
 
 theorem linRaises_cases (code : Nat) (s : Sign) :
-    linRaises code s = none ∨ linRaises code s = some "ValueError" ∨ linRaises code s = some "ZeroDivisionError" := by
+    linRaises code s = none ∨ linRaises code s = some "ValueError" ∨ linRaises code s = some "ZeroDivisionError"
+      ∨ linRaises code s = some "DecodingError" := by
   unfold linRaises
+  simp only
+  split
+  · simp
+  · split
+    · split <;> simp
+    · split
+      · split <;> simp
+      · split
+        · split <;> simp
+        · simp
+
+/-- a linearisation byte that names none of the twelve formulas: `lin` raises DecodingError whatever x is -/
+theorem linRaises_unknown (code : Nat) (h : 12 ≤ code % 128) (s : Sign) :
+    linRaises code s = some "DecodingError" := by
+  unfold linRaises
+  simp [h]
+
+/-- … and a byte that names one never does -/
+theorem linRaises_known (code : Nat) (h : code % 128 < 12) (s : Sign) :
+    linRaises code s ≠ some "DecodingError" := by
+  unfold linRaises
+  have h' : ¬ 12 ≤ code % 128 := by omega
+  simp only [h', if_false]
   split
   · split <;> simp
   · split
@@ -148,14 +172,25 @@ theorem linRaises_cases (code : Nat) (s : Sign) :
       · split <;> simp
       · simp
 
-theorem cellRaises_none (caught : List String) (h : catchesArithmetic caught = true) (code : Nat) (s : Sign) :
+theorem cellRaises_none (caught : List String) (h : catchesConversion caught = true) (code : Nat) (s : Sign) :
     cellRaises caught code s = none := by
-  unfold catchesArithmetic at h
+  unfold catchesConversion catchesArithmetic catchesDecoding at h
   simp only [Bool.and_eq_true] at h
   unfold cellRaises
-  rcases linRaises_cases code s with h0 | h0 | h0 <;> rw [h0]
-  · simp [h.1]
+  rcases linRaises_cases code s with h0 | h0 | h0 | h0 <;> rw [h0]
+  · simp [h.1.1]
+  · simp [h.1.2]
   · simp [h.2]
+
+/-- without a clause for DecodingError (or wider) between the conversion and `main`, EVERY reading and threshold
+of a record whose linearisation is none of the twelve formulas ends the command -/
+theorem cellRaises_unknown (caught : List String) (h : catchesDecoding caught = false) (code : Nat)
+    (hc : 12 ≤ code % 128) (s : Sign) : cellRaises caught code s = some "DecodingError" := by
+  unfold catchesDecoding at h
+  unfold cellRaises
+  rw [linRaises_unknown code hc s]
+  simp only [h]
+  rfl
 
 def signOfSpec : Spec.Cli.Sign → Sign
   | .neg => .neg
@@ -166,5 +201,16 @@ def signOfSpec : Spec.Cli.Sign → Sign
 theorem linRaises_iff_undefined :
     Spec.Cli.Lin.all.all (fun l => Spec.Cli.Sign.all.all fun s =>
       (linRaises l.code (signOfSpec s)).isNone == l.defined s) = true := by decide
+
+/-- … over ALL 128 values of byte 24 [6:0] (reserved codes included): the conversion raises exactly where the
+specification says a tool has no value to print -/
+theorem linRaises_iff_noValue :
+    (List.range 128).all (fun code => Spec.Cli.Sign.all.all fun s =>
+      (linRaises code (signOfSpec s)).isNone == Spec.Cli.hasValue code s) = true := by decide +kernel
+
+/-- bit 7 of byte 24 is reserved and masked off by `lin` -/
+theorem linRaises_mask (code : Nat) (s : Sign) : linRaises code s = linRaises (code % 128) s := by
+  unfold linRaises
+  simp only [Nat.mod_mod]
 
 end PyIpmi.Cli
